@@ -20,6 +20,8 @@ def run(ctx):
     if ctx.tier == "thorough":
         AC.abstract_model(ctx, [a for a in ALGS if a in ("PaVeBa", "PaVeBaGP", "PaVeBaPartialGP")], N=4, batch=3, maxround=2)
     AC.run_traces(ctx, KIND, PROP)
+    from . import c18
+    c18.run_ad(ctx, PROP)        # VOGP_AD: every round's discards / declarations against the relations of the displayed regions
     ctx.rule = ("abstract model: all relations over 3 (thorough: 4) designs; traces: one per configuration of the driver matrix "
                 "(algorithm x order x confidence type x batch x budget), every run_one_step() validated; non-trivial = distinct "
                 "(algorithm, pre-state, relations, requests) steps")
